@@ -537,4 +537,616 @@ theorem lineRangesInclFixed_spec (w : Wave) (P : Nat) (δ : Int) :
   · intro h; simp [Wave.lineRangesInclFixed, h]
   · intro h; simp [Wave.lineRangesInclFixed, h]
 
+/-! ## `timestamp_mean(axis=1)` — the call behind the per-pixel timestamps — at any split depth -/
+
+
+/-- **`timestamp_mean(axis=1)` at any split depth** (the call that produces the per-pixel timestamps):
+    for every array of rows of width `w ≥ 1`, whatever the values, the result has one entry per row, and
+    entry `i` is at most the floor of the mean of row `i`, falls short of it by at most the number of
+    splits (itself at most `w − 1`), is at least the minimum of the whole array and at most the maximum of
+    its own row. -/
+theorem tsMeanRows_split_bounds (rows : List (List Int)) (w : Nat) (hw : 0 < w)
+    (hlen : ∀ r ∈ rows, r.length = w) (hne : rows.flatten ≠ []) :
+    ∃ res, tsMeanRows rows w = some res ∧ res.length = rows.length ∧
+      intMeanRowsSplits (shiftRows rows) w ≤ w - 1 ∧
+      ∀ (i : Nat) (hi : i < rows.length) (hi' : i < res.length),
+        rows[i].sum / (w : Int) - intMeanRowsSplits (shiftRows rows) w ≤ res[i] ∧
+        res[i] ≤ rows[i].sum / (w : Int) ∧
+        listMin rows.flatten ≤ res[i] ∧ res[i] ≤ listMax rows[i] := by
+  refine ⟨_, tsMeanRows_eq rows w hne, by simp, intMeanRowsSplits_le w _, ?_⟩
+  intro i hi hi'
+  simp only [List.getElem_map]
+  exact tsMeanRows_row_bounds rows w hw hlen rows[i] (List.getElem_mem hi)
+
+example : (∀ r ∈ [[0, 4, 5], [7, 8, 9223372036854775807]], r.length = 3) ∧
+    ([[0, 4, 5], [7, 8, 9223372036854775807]] : List (List Int)).flatten ≠ [] := by decide
+
+/-- In split mode a row's result can fall below that row's own minimum (the shift and the split
+    decision are array-wide): row `[1, 1]` next to a row spanning the whole of int64 yields `0`.
+    So "inside the pixel's first..last sample" needs the no-split hypothesis of `pixel_ts_spec`
+    (`hspan`); kernel-checked, replayed on the code by corpus case `rows_below_row_minimum`. -/
+theorem rows_below_min_witness :
+    tsMeanRows [[1, 1], [0, 9223372036854775807]] 2 = some [0, 4611686018427387903] := by
+  rw [tsMeanRows_eq _ _ (by decide)]
+  have e : shiftRows [[1, 1], [0, 9223372036854775807]] = [[1, 1], [0, 9223372036854775807]] := by decide
+  have m : listMin ([[1, 1], [0, 9223372036854775807]] : List (List Int)).flatten = 0 := by decide
+  simp only [e, m, List.map_cons, List.map_nil]
+  have hn : ∀ r, rowMeanWith [[1, 1], [0, 9223372036854775807]] 2 (2 : Nat) r = _ :=
+    fun r => rowMeanWith_node (r := r) (by decide)
+  simp only [hn, List.map_cons, List.map_nil]
+  have hl1 : ∀ r, rowMeanWith [List.take (2 / 2) [1, 1], List.take (2 / 2) [0, 9223372036854775807]] (2 / 2) (2 : Nat) r = _ :=
+    fun r => rowMeanWith_leaf (r := r) (by decide)
+  have hl2 : ∀ r, rowMeanWith [List.drop (2 / 2) [1, 1], List.drop (2 / 2) [0, 9223372036854775807]] (2 - 2 / 2) (2 : Nat) r = _ :=
+    fun r => rowMeanWith_leaf (r := r) (by decide)
+  simp only [hl1, hl2]
+  decide
+
+/-- **No overflow in `timestamp_mean(axis=1)`**: for timestamps `0 ≤ x < 2⁶³` every integer computed on
+    the way (the shifted array, every block's row sums and quotients, every element-wise sum of two
+    partial means, the final sums) lies in `[0, 2⁶³)`. -/
+theorem tsMeanRows_no_overflow (rows : List (List Int)) (w : Nat) (hw : 0 < w)
+    (hlen : ∀ r ∈ rows, r.length = w) (hne : rows.flatten ≠ [])
+    (hb : ∀ x ∈ rows.flatten, 0 ≤ x ∧ x ≤ I64MAX) :
+    ∀ y ∈ tsMeanRowsTrace rows w, 0 ≤ y ∧ y ≤ I64MAX := by
+  have hmin := hb _ (listMin_mem _ hne)
+  have hmax := hb _ (listMax_mem _ hne)
+  have hM : listMax rows.flatten - listMin rows.flatten ≤ I64MAX := by omega
+  have hrows : ∀ r' ∈ shiftRows rows, r'.length = w ∧
+      ∀ x ∈ r', 0 ≤ x ∧ x ≤ listMax rows.flatten - listMin rows.flatten := by
+    intro r' hr'
+    rcases List.mem_map.mp hr' with ⟨r, hr, rfl⟩
+    exact ⟨by simp only [List.length_map]; exact hlen r hr, shiftRows_bounds rows r hr⟩
+  intro y hy
+  simp only [tsMeanRowsTrace, List.mem_append] at hy
+  rcases hy with (hy | hy) | hy
+  · rcases List.mem_flatten.mp hy with ⟨r', hr', hy'⟩
+    have := (hrows r' hr').2 y hy'
+    omega
+  · rcases intMeanRowsTrace_mem _ _ _ y hy with ⟨r', hr', hy'⟩
+    exact rowTraceWith_bounds (w : Int) (by omega) _ hM w _ r' hr' hrows (by omega) y hy'
+  · rw [intMeanRows_eq_map, List.map_map] at hy
+    rcases List.mem_map.mp hy with ⟨r', hr', rfl⟩
+    rcases List.mem_map.mp hr' with ⟨r, hr, rfl⟩
+    have b := tsMeanRows_row_bounds rows w hw hlen r hr
+    have := le_listMax _ _ (List.mem_flatten.mpr ⟨r, hr, listMax_mem r (by
+      intro h; have := hlen r hr; rw [h] at this; simp at this; omega)⟩)
+    simp only [Function.comp]
+    have b' := b.2.2
+    simp only [shiftRows] at b'
+    omega
+
+/-- **Per-pixel timestamps without the no-split hypothesis**: for every info wave with at least one
+    complete pixel, whatever the start and the sample period, `reconstruct_image(timestamps,
+    reduce=timestamp_mean)` yields one value per complete pixel; it is at most the floor of the mean of
+    that pixel's `k` samples and at most its last sample, and falls short of the floor by at most `k − 1`
+    (`pixel_ts_spec`: by nothing when `(last − first)·k < 2⁶³` over the acquisition). -/
+theorem pixel_ts_general (w : Wave) (k : Nat) (hk : w.pixelSize = some k)
+    (hpix : (rowsOf k w.usedTs).flatten ≠ []) :
+    ∃ res, w.pixMean = some res ∧ res.length = (rowsOf k w.usedTs).length ∧
+      ∀ (i : Nat) (hi : i < (rowsOf k w.usedTs).length) (hi' : i < res.length),
+        (rowsOf k w.usedTs)[i].sum / (k : Int) - (k - 1 : Nat) ≤ res[i] ∧
+        res[i] ≤ (rowsOf k w.usedTs)[i].sum / (k : Int) ∧
+        res[i] ≤ listMax (rowsOf k w.usedTs)[i] := by
+  have hk0 := pixelSize_pos w k hk
+  have hlen := rowsOf_row_length k hk0 w.usedTs
+  rcases tsMeanRows_split_bounds _ k hk0 hlen hpix with ⟨res, hres, hl, hS, hb⟩
+  refine ⟨res, by unfold Wave.pixMean; rw [hk]; exact hres, hl, ?_⟩
+  intro i hi hi'
+  have := hb i hi hi'
+  refine ⟨?_, this.2.1, this.2.2.2⟩
+  have h1 := this.1
+  have : ((intMeanRowsSplits (shiftRows (rowsOf k w.usedTs)) k : Nat) : Int) ≤ ((k - 1 : Nat) : Int) :=
+    Int.ofNat_le.mpr hS
+  omega
+
+/-- **The per-pixel mean never overflows**: when all sample timestamps of the acquisition are
+    non-negative int64 values, every integer `timestamp_mean(axis=1)` computes for the pixel rows lies in
+    `[0, 2⁶³)` — at any split depth. -/
+theorem pixel_ts_no_overflow (w : Wave) (hdt : 0 < w.dt) (hs : 0 ≤ w.start) (k : Nat)
+    (hk : w.pixelSize = some k) (hpix : (rowsOf k w.usedTs).flatten ≠ [])
+    (hfit : ∀ t ∈ w.allTs, t ≤ I64MAX) :
+    ∀ y ∈ tsMeanRowsTrace (rowsOf k w.usedTs) k, 0 ≤ y ∧ y ≤ I64MAX := by
+  have hk0 := pixelSize_pos w k hk
+  apply tsMeanRows_no_overflow _ k hk0 (rowsOf_row_length k hk0 w.usedTs) hpix
+  intro x hx
+  have hxU := rowsOf_flatten_mem k _ x hx
+  have := usedTs_ge w hdt x hxU
+  have := hfit x ((usedTs_sublist w).subset hxU)
+  omega
+
+example :
+    let w : Wave := ⟨1000, 10, [0, 0, 1, 2, 1, 2, 1, 2, 0, 0, 0, 1, 2]⟩
+    w.pixelSize = some 2 ∧ (rowsOf 2 w.usedTs).flatten ≠ [] ∧ (∀ t ∈ w.allTs, t ≤ I64MAX) := by decide
+
+/-! ## The `δ` the code adds to the last sample: `int(1e9 / infowave.sample_rate)`
+
+`deltaTs` is the code's expression evaluated in an exact model of IEEE-754 binary64 division
+(`rnDiv`: exponent from the bit lengths, round-half-even of the scaled quotient), tied to the code by op
+`c03.delta` on every run (and cross-checked against the hardware `Float`). -/
+
+/-- **The code establishes the hypothesis `1 ≤ δ ≤ dt` of the range theorems**: for every sample period
+    from 1 ns to 10¹⁵ ns (the property asks for 0.1 s = 10⁸ ns) the float round trip
+    `int(1e9 / (1e9 / dt))` yields `dt` or `dt − 1`, and never `0`.  Proof: each of the two rounded
+    divisions has relative error at most 2⁻⁵³ (`rnDiv_err`), so the result lies strictly between `dt − 1`
+    and `dt + 1` as long as `2·dt + 2 < 2⁵³`; `dt = 1` is exact. -/
+theorem deltaTs_bounds (dt : Int) (h1 : 1 ≤ dt) (h2 : dt ≤ 1000000000000000) :
+    1 ≤ deltaTs dt ∧ deltaTs dt ≤ dt ∧ dt - 1 ≤ deltaTs dt := by
+  unfold deltaTs
+  have hn := deltaSoft_near dt.toNat (by omega) (by omega)
+  simp only [Int.ofNat_eq_natCast]
+  by_cases h : dt.toNat = 1
+  · rw [h, deltaSoft_one]; omega
+  · omega
+
+example : (1 : Int) ≤ 55 ∧ (55 : Int) ≤ 1000000000000000 := by decide
+
+/-- TEST (kernel evaluation of samples, not a ∀-statement): the periods the tie singles out — 55, 57
+    and 110 ns lose one nanosecond in the round trip, the Bluelake periods 12800 ns and 62.5 ms and the
+    0.1 s of the property do not. -/
+theorem deltaTs_values :
+    deltaTs 1 = 1 ∧ deltaTs 55 = 54 ∧ deltaTs 57 = 56 ∧ deltaTs 110 = 109 ∧ deltaTs 12800 = 12800 ∧
+      deltaTs 62500000 = 62500000 ∧ deltaTs 100000000 = 100000000 := by
+  decide +kernel
+
+/-- **Line ranges with the `δ` of the code** (no hypothesis on `δ` left): `line_range_exact` and
+    `line_ranges_ordered` for `δ = int(1e9 / sample_rate)`, every sample period up to 10¹⁵ ns. -/
+theorem line_range_exact_code (w : Wave) (hdt : 0 < w.dt) (hmax : w.dt ≤ 1000000000000000)
+    (hs : 0 ≤ w.start) (k : Nat) (hk : w.pixelSize = some k) (P : Nat) (hP : 0 < P)
+    (rs : List (Int × Int)) (hrs : w.lineRangesExcl P (deltaTs w.dt) = some rs) :
+    rs.length = numBlocks (w.usedTs.length / k) P ∧
+    (∀ (l : Nat) (hl : l < rs.length),
+      w.usedTs.filter (fun t => decide (rs[l].1 ≤ t) && decide (t < rs[l].2))
+        = blockSamples w.usedTs k P l) ∧
+    (∀ (l : Nat) (hl : l < rs.length),
+      rs[l].1 < rs[l].2 ∧ ∀ (hl' : l + 1 < rs.length), rs[l].2 ≤ rs[l + 1].1) := by
+  have hd := deltaTs_bounds w.dt (by omega) hmax
+  have hex := line_range_exact w hdt hs k hk P hP _ hd.1 hd.2.1 rs hrs
+  exact ⟨hex.1, hex.2, fun l hl => line_ranges_ordered w hdt hs k hk P hP _ hd.1 hd.2.1 rs hrs l hl⟩
+
+/-- **Frame ranges with the `δ` of the code.** -/
+theorem frame_range_exact_code (w : Wave) (hdt : 0 < w.dt) (hmax : w.dt ≤ 1000000000000000)
+    (hs : 0 ≤ w.start) (k : Nat) (hk : w.pixelSize = some k) (P L : Nat) (hP : 0 < P) (hL : 0 < L)
+    (rs : List (Int × Int)) (hrs : w.frameRanges P L false (deltaTs w.dt) = some (some rs)) :
+    rs.length = numBlocks (w.usedTs.length / k) (L * P) ∧
+    (∀ (f : Nat) (hf : f < rs.length),
+      w.usedTs.filter (fun t => decide (rs[f].1 ≤ t) && decide (t < rs[f].2))
+        = blockSamples w.usedTs k (L * P) f) ∧
+    (∀ (f : Nat) (hf : f < rs.length),
+      rs[f].1 < rs[f].2 ∧ ∀ (hf' : f + 1 < rs.length), rs[f].2 ≤ rs[f + 1].1) :=
+  have hd := deltaTs_bounds w.dt (by omega) hmax
+  frame_range_exact w hdt hs k hk P L hP hL _ hd.1 hd.2.1 rs hrs
+
+/-- **Summing the photon stream over the line ranges the code reports gives the image's column totals**
+    (`sum_over_ranges_eq_image` with the `δ` of the code). -/
+theorem sum_over_ranges_eq_image_code (w : Wave) (data : List Int) (hlen : data.length = w.iw.length)
+    (hdt : 0 < w.dt) (hmax : w.dt ≤ 1000000000000000) (hs : 0 ≤ w.start) (k m r : Nat)
+    (hreg : w.Regular k m r) (P : Nat) (hP : 0 < P)
+    (hcont : ∀ l, l < numBlocks m P → ∀ t ∈ w.allTs,
+      w.usedTs.getD (l * P * k) 0 ≤ t →
+      t ≤ w.usedTs.getD (min ((l + 1) * P) m * k - 1) 0 → t ∈ w.usedTs)
+    (rs : List (Int × Int)) (hrs : w.lineRangesExcl P (deltaTs w.dt) = some rs) :
+    sumOver ⟨w.start, w.dt, data⟩ rs = lineTotals P (pixelSums w.iw data 0) :=
+  have hd := deltaTs_bounds w.dt (by omega) hmax
+  sum_over_ranges_eq_image w data hlen hdt hs k m r hreg P hP _ hd.1 hd.2.1 hcont rs hrs
+
+/-- Non-vacuity with a period that loses a nanosecond: `dt = 55`, `δ = 54`. -/
+example :
+    let w : Wave := ⟨1000, 55, [0, 0, 1, 2, 1, 2, 0, 1, 2, 1, 2, 0, 1, 2, 1]⟩
+    w.Regular 2 5 1 ∧ deltaTs w.dt = 54 ∧
+    w.lineRangesExcl 2 (deltaTs w.dt) = some [(1110, 1329), (1385, 1604), (1660, 1769)] := by
+  refine ⟨⟨by decide, by decide, by decide, by decide⟩, by decide +kernel, ?_⟩
+  have : deltaTs (⟨1000, 55, [0, 0, 1, 2, 1, 2, 0, 1, 2, 1, 2, 0, 1, 2, 1]⟩ : Wave).dt = 54 := by
+    decide +kernel
+  simp only [this]
+  decide
+
+/-! ## Frame totals, discarded samples inside a range, longer channels -/
+
+/-- **Summing a channel over the reported ranges gives the image totals even when discarded samples
+    lie inside a range, as long as they carry no counts** (generalises `sum_over_ranges_eq_image`, whose
+    hypothesis `hcont` makes `hzero` vacuous): every sample of the channel whose time lies between the
+    first and the last used sample of a block and is not a used sample has value zero. -/
+theorem sum_over_ranges_eq_image_zero (w : Wave) (data : List Int) (hlen : data.length = w.iw.length)
+    (hdt : 0 < w.dt) (hs : 0 ≤ w.start) (k m r : Nat) (hreg : w.Regular k m r) (P : Nat) (hP : 0 < P)
+    (δ : Int) (h1 : 1 ≤ δ) (h2 : δ ≤ w.dt)
+    (hzero : ∀ l, l < numBlocks m P → ∀ s ∈ C01.samplesFrom w.start w.dt data,
+      w.usedTs.getD (l * P * k) 0 ≤ s.1 →
+      s.1 ≤ w.usedTs.getD (min ((l + 1) * P) m * k - 1) 0 → s.1 ∉ w.usedTs → s.2 = 0)
+    (rs : List (Int × Int)) (hrs : w.lineRangesExcl P δ = some rs) :
+    sumOver ⟨w.start, w.dt, data⟩ rs = lineTotals P (pixelSums w.iw data 0) := by
+  have hk := hreg.pixelSize
+  have hm := hreg.numPix
+  have hul := hreg.used_length
+  obtain ⟨hk0, hm0, hr, hsub⟩ := hreg
+  rw [sumOver_blocks_zero w data hlen hdt hs k hk P hP δ h1 h2 (by rw [hm]; exact hzero) rs hrs, hm]
+  have hUD : (usedOf w.iw data).length = m * k + r := by
+    rw [usedOf_length _ _ hlen, ← hul]
+    unfold Wave.usedTs Wave.allTs
+    rw [usedOf_length _ _ (times_length _ _ _)]
+  rw [pixelSums_used]
+  have : w.iw.filter (· ≠ 0) = w.subset := rfl
+  rw [this, hsub, pixelSums_regular k hk0 m r _ (by omega), lineTotals_rows _ _ _ _ hP]
+
+/-- **Frame totals**: summing a timeline channel over the frame ranges `frame_timestamp_ranges()`
+    reports reproduces the totals of the image frames (blocks of `L·P` pixels) whenever the channel is
+    zero at the discarded samples *inside* a frame (the dead time between the lines of a frame: a frame
+    range is one interval and necessarily contains them).  Counts in the lead-in, between frames and
+    after the last pixel are arbitrary; the `δ` is the one the code computes. -/
+theorem sum_over_frame_ranges_eq_image (w : Wave) (data : List Int) (hlen : data.length = w.iw.length)
+    (hdt : 0 < w.dt) (hmax : w.dt ≤ 1000000000000000) (hs : 0 ≤ w.start) (k m r : Nat)
+    (hreg : w.Regular k m r) (P L : Nat) (hP : 0 < P) (hL : 0 < L)
+    (hzero : ∀ f, f < numBlocks m (L * P) → ∀ s ∈ C01.samplesFrom w.start w.dt data,
+      w.usedTs.getD (f * (L * P) * k) 0 ≤ s.1 →
+      s.1 ≤ w.usedTs.getD (min ((f + 1) * (L * P)) m * k - 1) 0 → s.1 ∉ w.usedTs → s.2 = 0)
+    (rs : List (Int × Int)) (hrs : w.frameRanges P L false (deltaTs w.dt) = some (some rs)) :
+    sumOver ⟨w.start, w.dt, data⟩ rs = lineTotals (L * P) (pixelSums w.iw data 0) := by
+  have hPL : 0 < L * P := Nat.mul_pos hL hP
+  have hd := deltaTs_bounds w.dt (by omega) hmax
+  rw [frameRanges_excl w hdt hs k hreg.pixelSize P L hPL _] at hrs
+  cases hx : w.lineRangesExcl (L * P) (deltaTs w.dt) with
+  | none => rw [hx] at hrs; cases hrs
+  | some rs' =>
+    rw [hx] at hrs
+    simp only [Option.map_some, Option.some.injEq] at hrs
+    subst hrs
+    exact sum_over_ranges_eq_image_zero w data hlen hdt hs k m r hreg (L * P) hPL _ hd.1 hd.2.1 hzero rs' hx
+
+/-- Non-vacuity: two frames of 2×2 one-sample pixels, one dead sample between the lines of a frame
+    (count 0), two between the frames (counts 7), lead-in (count 5); `dt = 55`, so `δ = 54`. -/
+example :
+    let w : Wave := ⟨1000, 55, [0, 2, 2, 0, 2, 2, 0, 0, 2, 2, 0, 2, 2]⟩
+    let data : List Int := [5, 1, 2, 0, 3, 4, 7, 7, 5, 6, 0, 7, 8]
+    w.Regular 1 8 0 ∧
+    (∀ f, f < numBlocks 8 (2 * 2) → ∀ s ∈ C01.samplesFrom w.start w.dt data,
+      w.usedTs.getD (f * (2 * 2) * 1) 0 ≤ s.1 →
+      s.1 ≤ w.usedTs.getD (min ((f + 1) * (2 * 2)) 8 * 1 - 1) 0 → s.1 ∉ w.usedTs → s.2 = 0) ∧
+    w.frameRanges 2 2 false 54 = some (some [(1055, 1329), (1440, 1714)]) ∧
+    sumOver ⟨1000, 55, data⟩ [(1055, 1329), (1440, 1714)] = [10, 26] ∧
+    lineTotals (2 * 2) (pixelSums w.iw data 0) = [10, 26] := by
+  refine ⟨⟨by decide, by decide, by decide, by decide⟩, by decide, by decide, by decide, by decide⟩
+
+/-- every reported line range lies within the acquisition `[start, start + #samples·dt]` -/
+theorem line_ranges_covered (w : Wave) (hdt : 0 < w.dt) (hs : 0 ≤ w.start) (k : Nat)
+    (hk : w.pixelSize = some k) (P : Nat) (hP : 0 < P) (δ : Int) (h1 : 1 ≤ δ) (h2 : δ ≤ w.dt)
+    (rs : List (Int × Int)) (hrs : w.lineRangesExcl P δ = some rs) :
+    ∀ r ∈ rs, w.start ≤ r.1 ∧ r.2 ≤ w.start + w.iw.length * w.dt := by
+  intro r hr
+  rcases List.getElem_of_mem hr with ⟨l, hl, rfl⟩
+  have hex := (line_range_exact w hdt hs k hk P hP δ h1 h2 rs hrs)
+  have hk0 := pixelSize_pos w k hk
+  have hlt : l * P < w.usedTs.length / k := (lt_numBlocks_iff _ _ _ hP).mp (by rw [← hex.1]; exact hl)
+  have hm := mul_succ_le_of_lt_div _ _ _ hk0 hlt
+  have he2 : min ((l + 1) * P) (w.usedTs.length / k) * k ≤ w.usedTs.length / k * k :=
+    Nat.mul_le_mul_right _ (Nat.min_le_right _ _)
+  have he3 := Nat.div_mul_le_self w.usedTs.length k
+  have hP1 : (l + 1) * P = l * P + P := by rw [Nat.add_mul]; omega
+  have he1 : (l * P + 1) * k ≤ min ((l + 1) * P) (w.usedTs.length / k) * k :=
+    Nat.mul_le_mul_right _ (by omega)
+  rw [Nat.add_mul] at he1
+  rw [line_range_bounds w hdt hs k hk P hP δ rs hrs l hl]
+  simp only
+  rw [getD_eq _ _ (by omega), getD_eq _ _ (by omega)]
+  constructor
+  · exact usedTs_ge w hdt _ (List.getElem_mem _)
+  · have hmem : w.usedTs[min ((l + 1) * P) (w.usedTs.length / k) * k - 1]'(by omega) ∈ w.allTs :=
+      (usedTs_sublist w).subset (List.getElem_mem _)
+    have := times_stop w.dt hdt _ _ _ hmem
+    omega
+
+/-- **Any longer channel on the same timeline**: reducing a channel that starts `pre` samples before the
+    acquisition and ends `post` samples after it (arbitrary values there) over the reported line ranges
+    gives the same sums as reducing the acquisition's own stream — so `sum_over_ranges_eq_image(_zero)`
+    and `sum_over_frame_ranges_eq_image` hold verbatim for such channels (frames: blocks of `L·P`). -/
+theorem sum_over_ranges_longer_channel (w : Wave) (data pre post : List Int)
+    (hlen : data.length = w.iw.length) (hdt : 0 < w.dt) (hs : 0 ≤ w.start) (k : Nat)
+    (hk : w.pixelSize = some k) (P : Nat) (hP : 0 < P) (δ : Int) (h1 : 1 ≤ δ) (h2 : δ ≤ w.dt)
+    (rs : List (Int × Int)) (hrs : w.lineRangesExcl P δ = some rs) :
+    sumOver ⟨w.start - pre.length * w.dt, w.dt, pre ++ (data ++ post)⟩ rs
+      = sumOver ⟨w.start, w.dt, data⟩ rs :=
+  sumOver_extend w.start w.dt hdt pre data post rs (by
+    rw [hlen]; exact line_ranges_covered w hdt hs k hk P hP δ h1 h2 rs hrs)
+
+example :
+    let w : Wave := ⟨1000, 10, [0, 0, 1, 2, 1, 2, 0, 1, 2, 1, 2, 0, 1, 2, 1]⟩
+    let data : List Int := [9, 8, 1, 2, 3, 4, 7, 5, 6, 7, 8, 6, 9, 10, 11]
+    w.lineRangesExcl 2 9 = some [(1020, 1059), (1070, 1109), (1120, 1139)] ∧
+    sumOver ⟨1000 - 2 * 10, 10, [50, 60] ++ (data ++ [70, 80, 90])⟩ [(1020, 1059), (1070, 1109), (1120, 1139)]
+      = [10, 26, 19] := by
+  refine ⟨by decide, by decide⟩
+
+/-! ## Frames with dead time, duration against the ranges, the no-split hypothesis from the duration -/
+
+/-- **Frames with dead time included**: with more than one reconstructed frame every range starts at
+    the frame's first used sample and, for a constant frame period, `t1(f) = t0(f+1)` (exactly
+    contiguous); a scan with a single reconstructed frame has no frame period and reports the exclusive
+    range (`frame_range_exact`). -/
+theorem frame_dead_time_contiguous (w : Wave) (hdt : 0 < w.dt) (k : Nat)
+    (hk : w.pixelSize = some k) (P L : Nat) (hP : 0 < P) (hL : 0 < L) (δ : Int)
+    (ri : List (Int × Int)) (hri : w.frameRanges P L true δ = some (some ri)) :
+    (numBlocks (w.usedTs.length / k) (L * P) = 1 → w.frameRanges P L false δ = some (some ri)) ∧
+    (numBlocks (w.usedTs.length / k) (L * P) ≠ 1 →
+      ri.length = numBlocks (w.usedTs.length / k) (L * P) ∧
+      (∀ (f : Nat) (hf : f < ri.length), ri[f].1 = w.usedTs.getD (f * (L * P) * k) 0) ∧
+      (∀ (f : Nat) (hf : f + 1 < ri.length),
+        w.usedTs.getD ((f + 1) * (L * P) * k) 0 - w.usedTs.getD (f * (L * P) * k) 0
+          = w.usedTs.getD (1 * (L * P) * k) 0 - w.usedTs.getD (0 * (L * P) * k) 0 →
+        ri[f].2 = ri[f + 1].1)) := by
+  constructor
+  · intro h1
+    rw [← frameRanges_single_incl w k hdt hk P L δ h1]; exact hri
+  · intro h1
+    rw [frameRanges_incl_multi w k hdt hk P L δ h1] at hri
+    exact dead_time_contiguous w hdt k hk (L * P) (Nat.mul_pos hL hP) ri hri
+
+/-- **Duration = line time × number of reported line ranges**: for a regular wave the image has one
+    pixel per complete pixel of the stream, hence as many lines as `line_timestamp_ranges()` reports
+    ranges (replaces the definitional `duration_spec` by a statement against the ranges). -/
+theorem duration_lines (w : Wave) (hdt : 0 < w.dt) (hs : 0 ≤ w.start) (k m r : Nat)
+    (hreg : w.Regular k m r) (P : Nat) (hP : 0 < P) (δ : Int)
+    (rs : List (Int × Int)) (hrs : w.lineRangesExcl P δ = some rs) :
+    w.durationNs P = (w.lineTimeNs P).map fun (lt : Int) => lt * (rs.length : Int) := by
+  have hk := hreg.pixelSize
+  rw [lineRangesExcl_spec w hdt hs k hk P hP δ] at hrs
+  injection hrs with hrs
+  subst hrs
+  simp only [List.length_map, List.length_range, Wave.numPix, hreg.numPix]
+  unfold Wave.durationNs
+  rw [hreg.numBoundaries]
+
+example :
+    let w : Wave := ⟨1000, 10, [0, 0, 1, 2, 1, 2, 0, 1, 2, 1, 2, 0, 1, 2, 1]⟩
+    w.Regular 2 5 1 ∧ w.lineRangesExcl 2 9 = some [(1020, 1059), (1070, 1109), (1120, 1139)] ∧
+    w.durationNs 2 = some 150 := by
+  refine ⟨⟨by decide, by decide, by decide, by decide⟩, by decide, by decide⟩
+
+/-- **The no-split hypothesis of `pixel_ts_spec` holds for every acquisition shorter than `2⁶³/k` ns**
+    (292 years / k): `#samples · dt · k < 2⁶³` implies `hspan`, so per-pixel timestamps are the exact
+    floor means, inside the pixel. -/
+theorem pixel_ts_spec_duration (w : Wave) (hdt : 0 < w.dt) (k : Nat) (hk : w.pixelSize = some k)
+    (hpix : (rowsOf k w.usedTs).flatten ≠ [])
+    (hdur : (w.iw.length : Int) * w.dt * k ≤ I64MAX) :
+    w.pixMean = some ((rowsOf k w.usedTs).map fun r => r.sum / (k : Int)) ∧
+    ∀ r ∈ rowsOf k w.usedTs, r.length = k ∧ listMin r ≤ r.sum / (k : Int) ∧ r.sum / (k : Int) ≤ listMax r := by
+  apply pixel_ts_spec w k hk hpix
+  have hin : ∀ x ∈ (rowsOf k w.usedTs).flatten, w.start ≤ x ∧ x + w.dt ≤ w.start + w.iw.length * w.dt := by
+    intro x hx
+    have hxU := rowsOf_flatten_mem k _ x hx
+    exact ⟨usedTs_ge w hdt x hxU, times_stop w.dt hdt _ _ x ((usedTs_sublist w).subset hxU)⟩
+  have h1 := hin _ (listMax_mem _ hpix)
+  have h2 := hin _ (listMin_mem _ hpix)
+  have hle : listMax (rowsOf k w.usedTs).flatten - listMin (rowsOf k w.usedTs).flatten
+      ≤ (w.iw.length : Int) * w.dt := by omega
+  have := Int.mul_le_mul_of_nonneg_right hle (show (0 : Int) ≤ (k : Int) by omega)
+  omega
+
+example :
+    let w : Wave := ⟨1000, 10, [0, 0, 1, 2, 1, 2, 1, 2, 0, 0, 0, 1, 2]⟩
+    w.pixelSize = some 2 ∧ (rowsOf 2 w.usedTs).flatten ≠ [] ∧
+      (w.iw.length : Int) * w.dt * (2 : Nat) ≤ I64MAX := by decide
+
+/-! ## Pixel time, line time and duration as the doubles the code returns -/
+
+
+/-- **`pixel_time_seconds` as a double**: for a wave whose first pixel has `k` used samples the value the
+    code returns — `float(k·dt) * 1e-9`, three roundings in binary64 — is within `(1 ± 2⁻⁵³)³`
+    (relative 3.4·10⁻¹⁶) of `k·dt·10⁻⁹` s. -/
+theorem pixel_time_seconds_spec (w : Wave) (hdt : 0 < w.dt) (lead k : Nat) (hk : 0 < k) (tail : List Nat)
+    (hiw : w.iw = List.replicate lead 0 ++ (pixelCodes k ++ tail)) :
+    ∃ s, w.pixelTimeSec = some s ∧ Within3 s (k * w.dt.toNat) 1000000000 := by
+  refine ⟨_, by unfold Wave.pixelTimeSec; rw [pixel_time_spec w lead k hk tail hiw]; rfl, ?_⟩
+  show Within3 (secondsOf ((k : Int) * w.dt).toNat) _ _
+  rw [toNat_natCast_mul k w.dt hdt]
+  exact secondsOf_err _ (Nat.mul_pos hk (by omega))
+
+/-- **`line_time_seconds` as a double**: for a regular first line the value the code returns is within
+    `(1 ± 2⁻⁵³)³` of `(P·k + dead)·dt·10⁻⁹` s, the line period the info wave encodes
+    (`line_time_spec`: `= t0(1) − t0(0)`). -/
+theorem line_time_seconds_spec (w : Wave) (hdt : 0 < w.dt) (lead k P dead : Nat) (more rest : List Nat)
+    (c : Nat) (h : FirstLine w lead k P dead more rest c) :
+    ∃ s, w.lineTimeSec P = some s ∧ Within3 s ((P * k + dead) * w.dt.toNat) 1000000000 := by
+  refine ⟨_, by unfold Wave.lineTimeSec; rw [(line_time_spec w lead k P dead more rest c h).1]; rfl, ?_⟩
+  show Within3 (secondsOf (((P * k + dead : Nat) : Int) * w.dt).toNat) _ _
+  rw [toNat_natCast_mul _ w.dt hdt]
+  exact secondsOf_err _ (Nat.mul_pos (Nat.lt_of_lt_of_le (Nat.mul_pos h.hP h.hk) (Nat.le_add_right _ _)) (by omega))
+
+/-- **`duration` as a double**: the line time (a double `lt`) times the number of image lines, two more
+    roundings: within `(1 ± 2⁻⁵³)²` of `lt · #lines`. -/
+theorem duration_seconds_spec (w : Wave) (P : Nat) (ns : Int) (hns : w.lineTimeNs P = some ns)
+    (hpos : 0 < ns) (hl : 0 < numBlocks w.numBoundaries P) :
+    ∃ d, w.durationSec P = some d ∧
+      Within2 d ((secondsOf ns.toNat).1 * numBlocks w.numBoundaries P) (secondsOf ns.toNat).2 := by
+  refine ⟨_, by unfold Wave.durationSec; rw [hns]; rfl, ?_⟩
+  have hs := secondsOf_err ns.toNat (by omega)
+  have h1 : 0 < (secondsOf ns.toNat).1 := by
+    rcases Nat.eq_zero_or_pos (secondsOf ns.toNat).1 with h0 | h0
+    · have h3 := hs.2.2
+      rw [h0] at h3
+      have : 0 < ns.toNat * (secondsOf ns.toNat).2 := Nat.mul_pos (by omega) hs.1
+      omega
+    · exact h0
+  exact timesNat_err _ _ h1 hs.1 hl
+
+example :
+    let w : Wave := ⟨1000, 10, [0, 0, 1, 2, 1, 2, 1, 2, 0, 0, 0, 1, 2]⟩
+    w.lineTimeNs 3 = some 90 ∧ 0 < numBlocks w.numBoundaries 3 := by decide
+
+/-! ## The 1-D mean on arbitrary int64 arrays -/
+
+
+/-- **No overflow for arbitrary int64 arrays whose span fits int64** (generalises `tsMean_no_overflow`
+    from non-negative timestamps): if every value is an int64 and `max − min < 2⁶³`, every integer computed
+    on the way lies in int64 (the shifted values and all partial results even in `[0, 2⁶³)`). -/
+theorem tsMean_no_overflow_span (a : List Int) (hne : a ≠ [])
+    (hb : ∀ x ∈ a, I64MIN ≤ x ∧ x ≤ I64MAX) (hspan : listMax a - listMin a ≤ I64MAX) :
+    ∀ y ∈ tsMeanTrace a, I64MIN ≤ y ∧ y ≤ I64MAX := by
+  have hmin := listMin_mem a hne
+  have hmax := listMax_mem a hne
+  have hlen : 0 < a.length := List.length_pos_iff.mpr hne
+  have hsh := shifted_bounds a
+  have hI : I64MIN ≤ 0 := by decide
+  intro y hy
+  simp only [tsMeanTrace, List.mem_append, List.mem_singleton] at hy
+  rcases hy with (hy | hy) | hy
+  · have := hsh y hy; omega
+  · have := intMeanTrace_bounds a.length (listMax a - listMin a) hspan _ hsh (by simp) (by omega) y hy
+    omega
+  · subst hy
+    have b := intMean_bounds a.length (by omega) _ (fun x hx => (hsh x hx).1)
+    have h4 := sum_le_length_mul _ (listMax a - listMin a) (fun x hx => (hsh x hx).2)
+    simp only [List.length_map] at h4
+    have h6 : (a.map (· - listMin a)).sum / (a.length : Int) ≤ listMax a - listMin a :=
+      Int.ediv_le_of_le_mul (by omega) (by
+        have := Int.mul_comm (a.length : Int) (listMax a - listMin a); omega)
+    have := (hb _ hmin).1; have := (hb _ hmax).2
+    omega
+
+example : (∀ x ∈ ([-5, I64MAX - 5, 0] : List Int), I64MIN ≤ x ∧ x ≤ I64MAX) ∧
+    listMax [-5, I64MAX - 5, 0] - listMin [-5, I64MAX - 5, 0] ≤ I64MAX := by decide
+
+/-- The span hypothesis is necessary: for `[-1, 2⁶³−1]` (both int64) the shifted array `a − min(a)`
+    already contains `2⁶³`, outside int64 (kernel-checked).  Not a timestamp array: timestamps are
+    non-negative, so their span always fits. -/
+theorem span_necessary_witness :
+    (∀ x ∈ ([-1, I64MAX] : List Int), I64MIN ≤ x ∧ x ≤ I64MAX) ∧
+    ¬ ∀ y ∈ ([-1, I64MAX] : List Int).map (· - listMin [-1, I64MAX]), y ≤ I64MAX := by decide
+
+/-- the number of splits of the 1-D mean is at most `n − 1`, so `tsMean_floor_split` gives
+    `⌊mean⌋ − (n − 1) ≤ timestamp_mean(a) ≤ ⌊mean⌋` for every array -/
+theorem tsMean_floor_split_n (a : List Int) (r : Int) (h : tsMean a = some r) :
+    a.sum / a.length - ((a.length - 1 : Nat) : Int) ≤ r ∧ r ≤ a.sum / a.length := by
+  have b := tsMean_floor_split a r h
+  have := intMeanSplits_le (a.map (· - listMin a))
+  simp only [List.length_map] at this
+  have : (intMeanSplits (a.map (· - listMin a)) : Int) ≤ ((a.length - 1 : Nat) : Int) := Int.ofNat_le.mpr this
+  omega
+
+/-! ## The hypotheses of the raw-stream and total theorems, established by the geometry -/
+
+
+/-- **Raw-stream exactness from the shape of the info wave** (`line_range_exact_raw` without its
+    semantic hypothesis): when the wave has dead time only between lines (`LinesOk`), every line range
+    the code reports selects from the raw sample stream exactly the samples of that line's complete
+    pixels. -/
+theorem line_range_exact_raw_shape (w : Wave) (hdt : 0 < w.dt) (hmax : w.dt ≤ 1000000000000000)
+    (hs : 0 ≤ w.start) (k : Nat) (hk : w.pixelSize = some k) (P : Nat) (hP : 0 < P)
+    (hok : LinesOk (P * k) w.iw)
+    (rs : List (Int × Int)) (hrs : w.lineRangesExcl P (deltaTs w.dt) = some rs) (l : Nat)
+    (hl : l < rs.length) :
+    w.allTs.filter (fun t => decide (rs[l].1 ≤ t) && decide (t < rs[l].2))
+      = blockSamples w.usedTs k P l := by
+  have hd := deltaTs_bounds w.dt (by omega) hmax
+  have hex := line_range_exact w hdt hs k hk P hP _ hd.1 hd.2.1 rs hrs
+  exact line_range_exact_raw w hdt hs k hk P hP _ hd.1 hd.2.1 rs hrs l hl
+    (hcont_of_linesOk w hdt k hk P hP hok l (by rw [← hex.1]; exact hl))
+
+/-- **The C02 kymograph geometries establish every hypothesis**: for the info wave of any geometry
+    (lead-in, `k` samples per pixel, `P` pixels per line, any dead time, any number of lines, tail),
+    truncated at any sample after its first complete pixel, any start `≥ 0`, any period up to 10¹⁵ ns and
+    any photon counts: (1) every reported line range selects from the raw stream exactly its line's
+    samples, and (2) summing the photon stream over the reported ranges gives the image's column totals. -/
+theorem kymo_geometry_ranges (w : Wave) (data : List Int) (hlen : data.length = w.iw.length)
+    (hdt : 0 < w.dt) (hmax : w.dt ≤ 1000000000000000) (hs : 0 ≤ w.start)
+    (lead k P dead lines tail n : Nat) (hk : 0 < k) (hP : 0 < P)
+    (hiw : w.iw = (geomKymo lead k P dead lines tail).take n) (hpix : k ≤ w.subset.length)
+    (rs : List (Int × Int)) (hrs : w.lineRangesExcl P (deltaTs w.dt) = some rs) :
+    (∀ (l : Nat) (hl : l < rs.length),
+      w.allTs.filter (fun t => decide (rs[l].1 ≤ t) && decide (t < rs[l].2))
+        = blockSamples w.usedTs k P l) ∧
+    sumOver ⟨w.start, w.dt, data⟩ rs = lineTotals P (pixelSums w.iw data 0) := by
+  have hreg := geomKymo_regular w lead k P dead lines tail n hk hiw hpix
+  have hok : LinesOk (P * k) w.iw := by rw [hiw]; exact geomKymo_linesOk lead k P dead lines tail n hk
+  have hc := hcont_of_linesOk w hdt k hreg.pixelSize P hP hok
+  refine ⟨fun l hl => line_range_exact_raw_shape w hdt hmax hs k hreg.pixelSize P hP hok rs hrs l hl, ?_⟩
+  rw [hreg.numPix] at hc
+  exact sum_over_ranges_eq_image_code w data hlen hdt hmax hs k _ _ hreg P hP hc rs hrs
+
+/-- Non-vacuity: lead-in 2, two samples per pixel, two pixels per line, dead time 1, three lines, cut
+    after 15 samples (third line unfinished). -/
+example :
+    let w : Wave := ⟨1000, 10, [0, 0, 1, 2, 1, 2, 0, 1, 2, 1, 2, 0, 1, 2, 1]⟩
+    w.iw = (geomKymo 2 2 2 1 3 0).take 15 ∧ 2 ≤ w.subset.length := by decide
+
+/-! ## Placement of the per-pixel timestamps of a scan -/
+
+
+/-- Placement for scans: `Scan.timestamps[f][a][b]` is the timestamp of pixel `f·L·P + a·P + b`
+    (line `a`, pixel `b` of frame `f`), with the two image axes swapped when the fast axis has the higher
+    physical axis number; `0` for the padding of an unfinished last frame. -/
+theorem scan_ts_placement (w : Wave) (P L : Nat) (flip : Bool) (pix : List Int) (h : w.pixMean = some pix) :
+    w.scanTimestamps P L flip = some ((List.range (numBlocks pix.length (L * P))).map fun f =>
+      if flip then (List.range P).map fun a => (List.range L).map fun b => pix.getD (f * (L * P) + (b * P + a)) 0
+      else (List.range L).map fun a => (List.range P).map fun b => pix.getD (f * (L * P) + (a * P + b)) 0) := by
+  unfold Wave.scanTimestamps
+  rw [h, Option.map_some, scanFrames_eq]
+
+example : (⟨1000, 10, [0, 2, 2, 0, 2, 2, 0, 0, 2, 2, 0, 2]⟩ : Wave).scanTimestamps 2 2 true
+    = some [[[1010, 1040], [1020, 1050]], [[1080, 1110], [1090, 0]]] := by
+  have h := (pixel_ts_spec ⟨1000, 10, [0, 2, 2, 0, 2, 2, 0, 0, 2, 2, 0, 2]⟩ 1 (by decide) (by decide)
+    (by decide)).1
+  rw [scan_ts_placement _ 2 2 true _ h]; decide
+
+/-! ## Ranges with dead time included contain exactly their line / frame -/
+
+
+/-- **Ranges with dead time included contain exactly their line** (every line that is followed by
+    another one, constant line period): the used samples `t` with `t0(l) ≤ t < t1(l) = t0(l+1)` are exactly
+    the samples of line `l` — all `P` pixels, none of line `l+1`; ranges are non-empty.  (The last range
+    ends one period after its start; that it contains the last line's samples is checked by the oracle
+    only.) -/
+theorem incl_range_exact_inner (w : Wave) (hdt : 0 < w.dt) (k : Nat)
+    (hk : w.pixelSize = some k) (P : Nat) (hP : 0 < P)
+    (ri : List (Int × Int)) (hri : w.lineRangesIncl P = some (some ri)) (l : Nat) (hl : l + 1 < ri.length)
+    (hper : w.usedTs.getD ((l + 1) * P * k) 0 - w.usedTs.getD (l * P * k) 0
+      = w.usedTs.getD (1 * P * k) 0 - w.usedTs.getD (0 * P * k) 0) :
+    ri[l].1 < ri[l].2 ∧
+    w.usedTs.filter (fun t => decide (ri[l].1 ≤ t) && decide (t < ri[l].2))
+      = blockSamples w.usedTs k P l := by
+  have hd := dead_time_contiguous w hdt k hk P hP ri hri
+  have hk0 := pixelSize_pos w k hk
+  have hsep : Sep 1 id w.usedTs := (usedTs_sep w hdt).mono (by omega)
+  have hlt' : (l + 1) * P < w.usedTs.length / k :=
+    (lt_numBlocks_iff _ _ _ hP).mp (by rw [← hd.1]; exact hl)
+  have hm' := mul_succ_le_of_lt_div _ _ _ hk0 hlt'
+  have hP1 : (l + 1) * P = l * P + P := by rw [Nat.add_mul]; omega
+  have hlt : l * P < w.usedTs.length / k := by omega
+  have hpos : 0 < P * k := Nat.mul_pos hP hk0
+  have hidx : (l + 1) * P * k = l * P * k + P * k := by rw [hP1, Nat.add_mul]
+  have h1 := hd.2.1 l (by omega)
+  have h2 := hd.2.2 l hl hper
+  have h3 := hd.2.1 (l + 1) hl
+  rw [h2, h3, h1, getD_eq _ _ (by omega), getD_eq _ _ (by omega)]
+  constructor
+  · have := hsep.getElem_lt (i := l * P * k) (j := (l + 1) * P * k) (by omega) (by omega)
+    simp only [id] at this; omega
+  · rw [blockSamples_eq _ _ _ _ hk0 hP hlt, Nat.min_eq_left (by omega)]
+    have e : (l + 1) * P * k = ((l + 1) * P * k - 1) + 1 := by omega
+    have hfw := filter_window_next w.usedTs hsep (l * P * k) ((l + 1) * P * k - 1) (by omega) (by omega)
+    rw [← hfw]
+    apply List.filter_congr
+    intro t _
+    congr 3
+    exact getElem_congr_idx e  
+example :
+    let w : Wave := ⟨1000, 10, [0, 0, 1, 2, 1, 2, 1, 2, 0, 0, 0, 1, 2, 1]⟩
+    w.pixelSize = some 2 ∧ w.lineRangesIncl 3 = some (some [(1020, 1110), (1110, 1200)]) ∧
+    w.usedTs.getD ((0 + 1) * 3 * 2) 0 - w.usedTs.getD (0 * 3 * 2) 0
+      = w.usedTs.getD (1 * 3 * 2) 0 - w.usedTs.getD (0 * 3 * 2) 0 ∧
+    w.usedTs.filter (fun t => decide (1020 ≤ t) && decide (t < 1110)) = blockSamples w.usedTs 2 3 0 := by
+  decide
+
+/-- The same for scan frames (more than one reconstructed frame, constant frame period): the range of a
+    frame that is followed by another one contains exactly the used samples of its `L·P` pixels. -/
+theorem frame_incl_range_exact_inner (w : Wave) (hdt : 0 < w.dt) (k : Nat)
+    (hk : w.pixelSize = some k) (P L : Nat) (hP : 0 < P) (hL : 0 < L) (δ : Int)
+    (hmulti : numBlocks (w.usedTs.length / k) (L * P) ≠ 1)
+    (ri : List (Int × Int)) (hri : w.frameRanges P L true δ = some (some ri)) (f : Nat)
+    (hf : f + 1 < ri.length)
+    (hper : w.usedTs.getD ((f + 1) * (L * P) * k) 0 - w.usedTs.getD (f * (L * P) * k) 0
+      = w.usedTs.getD (1 * (L * P) * k) 0 - w.usedTs.getD (0 * (L * P) * k) 0) :
+    ri[f].1 < ri[f].2 ∧
+    w.usedTs.filter (fun t => decide (ri[f].1 ≤ t) && decide (t < ri[f].2))
+      = blockSamples w.usedTs k (L * P) f := by
+  rw [frameRanges_incl_multi w k hdt hk P L δ hmulti] at hri
+  exact incl_range_exact_inner w hdt k hk (L * P) (Nat.mul_pos hL hP) ri hri f hf hper
+
 end Verif.C03
